@@ -298,10 +298,10 @@ func init() {
 			return ByteArr{T: App("uf.sha256", SString, x), N: 32}
 		},
 		"bytes.LastIndex": func(m *Machine, _ *Thread, _ *Frame, a []Value, _ ssa.Value) Value {
-			return m.weakUF("bytes.LastIndex", SBV(64), a)
+			return m.weakIndexOf("bytes.LastIndex", a)
 		},
 		"bytes.Index": func(m *Machine, _ *Thread, _ *Frame, a []Value, _ ssa.Value) Value {
-			return m.weakUF("bytes.Index", SBV(64), a)
+			return m.weakIndexOf("bytes.Index", a)
 		},
 		"bytes.LastIndexByte": func(m *Machine, _ *Thread, _ *Frame, a []Value, _ ssa.Value) Value {
 			return m.weakIndex("bytes.LastIndexByte", a)
@@ -553,6 +553,20 @@ func (m *Machine) cloneMap(v Value) Value {
 	}
 	m.objSeq++
 	return MapV{M: &MapObj{Keys: append([]Value{}, mv.M.Keys...), Vals: append([]Value{}, mv.M.Vals...), ID: m.objSeq}}
+}
+
+// weakIndexOf: the position of a sub-slice in opaque bytes: uninterpreted, but -1 or a position
+// at which the separator fits (weak path).
+func (m *Machine) weakIndexOf(name string, a []Value) *Term {
+	r := m.weakUF(name, SBV(64), a)
+	b, ok1 := a[0].(ByteSlice)
+	sep, ok2 := a[1].(ByteSlice)
+	if ok1 && ok2 {
+		n, k := m.bytesLen(b), m.bytesLen(sep)
+		fits := And(BVCmp("bvule", k, n), BVCmp("bvule", r, BVBin("bvsub", n, k)))
+		m.assume(Or(Eq(r, BVC(64, ^uint64(0))), fits))
+	}
+	return r
 }
 
 func (m *Machine) needBase10(v Value) {
